@@ -133,7 +133,11 @@ func (rn *runner) judge(d *dataset, qi int, q *querySpec, outs []outcome) {
 		} else {
 			if o.ans2 != nil {
 				if mm2 := compareAnswers(canon[i], o.ans2.canonical(o.cell.Desc), q.isMean()); mm2 != nil {
-					addFail("second-statement-of-batch|"+classify(q, o.cell, mm2, "metamorphic", nil), "metamorphic", "the two statements of one parallelbatch request differ: "+mm2.String(), o.cell, mm2, o.ans2)
+					sig := classifyMeta(q, o.cell, o.cell, canon[i], o.ans2.canonical(o.cell.Desc), mm2)
+					if !strings.HasPrefix(sig, "metamorphic-only|") && sig != sigMixedChunk && sig != sigBTMEmpty {
+						sig = "second-statement-of-batch|" + sig
+					}
+					addFail(sig, "metamorphic", "the two statements of one parallelbatch request differ: "+mm2.String(), o.cell, mm2, o.ans2)
 				}
 			}
 			rn.straddle(o.cell, o.ans, nil)
@@ -389,11 +393,45 @@ func classifyMeta(q *querySpec, a, b cell, ref, got *answer, mm *mismatch) strin
 	if a.BTM && len(got.Series) == 0 && len(ref.Series) > 0 {
 		return sigBTMEmpty
 	}
+	if q.Interval > 0 && (a.Layout == "mixed" && a.Inner < 1024 || b.Layout == "mixed" && b.Inner < 1024) {
+		return sigMixedChunk
+	}
+	var hasTag, hasField bool
+	q.Where.kinds(&hasTag, &hasField)
+	if q.Agg && hasField && (q.Interval == 0 || q.Fill == "none" || q.Fill == "previous") {
+		// the null rows of windows whose passing rows have no value appear in some cells only
+		if q.Fill == "previous" || compareAnswers(dropAllNullRows(ref), dropAllNullRows(got), q.isMean()) == nil {
+			return sigMetaPhantom
+		}
+	}
+	if q.Interval > 0 && q.Fill == "previous" && a.Desc != b.Desc && mm.Kind == "row" {
+		return sigMetaPrev
+	}
 	if q.Interval > 0 && q.Fill != "none" && (mm.Kind == "row" || mm.Kind == "row-count") {
 		n := len(ref.Series)
-		if fillSplitPossible(q, a, n) != fillSplitPossible(q, b, n) || (fillSplitPossible(q, a, n) && a.Inner != b.Inner) {
+		if fillSplitPossible(q, a, n) || fillSplitPossible(q, b, n) {
 			return sigMetaFill
 		}
 	}
 	return classify(q, a, mm, "metamorphic", nil)
+}
+
+func dropAllNullRows(a *answer) *answer {
+	out := &answer{}
+	for _, s := range a.Series {
+		ns := obsSeries{Tags: s.Tags, Key: s.Key, Cols: s.Cols}
+		for _, row := range s.Rows {
+			all := true
+			for _, c := range row[1:] {
+				all = all && c == nil
+			}
+			if !all {
+				ns.Rows = append(ns.Rows, row)
+			}
+		}
+		if len(ns.Rows) > 0 {
+			out.Series = append(out.Series, ns)
+		}
+	}
+	return out
 }
